@@ -6,8 +6,15 @@
      - path hash of a tree  = `stream`  (fs/hash.go:174: a file is its content; a directory is the
        concatenation of the contents of its files in sorted walk order, NAMES NOT INCLUDED)
      - source hash          = list of (path, stream) over IterSources (core/utils.go:121)
-     - rule hash            = `t_defkey` (the target's BUILD entry without comments; C08 is separate)
+     - rule hash            = `t_defkey` (the target's BUILD entry without comments; C08 is separate);
+                              the post-build rule hash of a target that the build can modify (output_dirs)
+                              = (t_defkey, the outputs the target has at that moment)
      - cache key            = (rule key, source key)   (CollapseHash of the parts, utils.go:494)
+   Targets with output_dirs (the e2e command `outdir`) go through the two-phase check of buildTarget
+   (build_step.go:226-260): needsBuilding(postBuild=false) on the declared outputs, then the outputs named
+   in the stored metadata are added to the target, then needsBuilding(postBuild=true) on all of them.
+   Not modelled: the cache for output_dirs targets (they never use it here), dependents of output_dirs
+   targets (they would see the discovered outputs), post-build functions.
    No proofs here. *)
 From PlzV Require Import Base.Harness.
 
@@ -98,7 +105,8 @@ Inductive cmd :=
 | CopyDir           (* mkdir $OUTS; cp -r every source into it by base name *)
 | ListNames         (* for a directory source: find . | sort; for a file source: its path *)
 | Const (arg : str) (* echo arg > every out *)
-| Fail.             (* exit 1 *)
+| Fail              (* exit 1 *)
+| OutDir.           (* output_dirs = ["_o"]: cp every (file) source into _o by base name; echo fixed > first of $OUTS *)
 
 Inductive kind :=
 | Genrule (c : cmd)
@@ -175,34 +183,44 @@ Definition iter_sources (r : repo) (t : target) : list path := dedup [] (all_pat
 (* ------------------------------------------------------------------------------------------ *)
 (* persistent state *)
 
-(* what writeRuleHash records on every output: rule hash, source hash (config and secret hashes
-   are constant in the modelled histories) *)
+(* what writeRuleHash records on every output: pre-build rule hash, post-build rule hash, source hash
+   (config and secret hashes are constant in the modelled histories).  The pre-build rule hash is the
+   rule key; the post-build rule hash is (rule key, pk_outs): pk_outs = [] for a target the build cannot
+   modify (RuleHash returns the memoised pre-build hash), else the outputs of the target when the record
+   was written (declared and discovered, RuleHash re-hashes target.outputs). *)
 Definition skey := list (path * str).
-Definition rkey := (str * skey)%type.
+Definition rule_key := (str * list str)%type.
+Definition rkey := (rule_key * skey)%type.
 Definition skey_eqb : skey -> skey -> bool :=
   list_eqb (fun a b => path_eqb (fst a) (fst b) && str_eqb (snd a) (snd b)).
-Definition rkey_eqb (a b : rkey) : bool := str_eqb (fst a) (fst b) && skey_eqb (snd a) (snd b).
+Definition rule_key_eqb (a b : rule_key) : bool := str_eqb (fst a) (fst b) && list_eqb str_eqb (snd a) (snd b).
+Definition rkey_eqb (a b : rkey) : bool := rule_key_eqb (fst a) (fst b) && skey_eqb (snd a) (snd b).
+Definition rk_def (rk : rkey) : str := fst (fst rk).
+Definition rk_outs (rk : rkey) : list str := snd (fst rk).
 
 Record entry := mkE { e_node : node; e_rec : option rkey }.
 
 Record store := mkS {
   s_outs : str -> option entry;        (* plz-out/gen: path -> tree + xattr user.plz_build *)
   s_meta : str -> bool;                (* label -> .target_build_metadata_<name> exists *)
+  s_dyn : str -> list str;             (* label -> OutputDirOuts stored in that file (meaningful when s_meta) *)
   s_cache : str -> rkey -> option (list (str * node))   (* <dir>/<pkg>/<name>/<key> -> outs *)
 }.
 
-Definition empty_store : store := mkS (fun _ => None) (fun _ => false) (fun _ _ => None).
+Definition empty_store : store := mkS (fun _ => None) (fun _ => false) (fun _ => []) (fun _ _ => None).
 (* rm -rf plz-out: the cache directory is elsewhere *)
-Definition wipe (st : store) : store := mkS (fun _ => None) (fun _ => false) (s_cache st).
+Definition wipe (st : store) : store := mkS (fun _ => None) (fun _ => false) (fun _ => []) (s_cache st).
 
 Definition upd {A} (f : str -> A) (k : str) (v : A) : str -> A :=
   fun k' => if str_eqb k' k then v else f k'.
 Definition set_out (st : store) (rel : str) (e : option entry) : store :=
-  mkS (upd (s_outs st) rel e) (s_meta st) (s_cache st).
-Definition set_meta (st : store) (l : str) : store :=
-  mkS (s_outs st) (upd (s_meta st) l true) (s_cache st).
+  mkS (upd (s_outs st) rel e) (s_meta st) (s_dyn st) (s_cache st).
+(* StoreTargetMetadata (incrementality.go:391): the file is replaced; OutputDirOuts = what the build found *)
+Definition set_meta_dyn (st : store) (l : str) (d : list str) : store :=
+  mkS (s_outs st) (upd (s_meta st) l true) (upd (s_dyn st) l d) (s_cache st).
+Definition set_meta (st : store) (l : str) : store := set_meta_dyn st l [].
 Definition set_cache (st : store) (l : str) (k : rkey) (v : list (str * node)) : store :=
-  mkS (s_outs st) (s_meta st)
+  mkS (s_outs st) (s_meta st) (s_dyn st)
       (fun l' k' => if str_eqb l' l && rkey_eqb k' k then Some v else s_cache st l' k').
 
 (* ------------------------------------------------------------------------------------------ *)
@@ -249,7 +267,34 @@ Definition needs_build (r : repo) (st : store) (t : target) : bool :=
   || match common_rec st (out_rels t) with
      | None => true
      | Some rk =>
-         negb (str_eqb (fst rk) (t_defkey t))
+         negb (str_eqb (rk_def rk) (t_defkey t))
+         || match source_key r st t with
+            | None => true
+            | Some k => negb (skey_eqb (snd rk) k)
+            end
+     end.
+
+(* BuildCouldModifyTarget (build_target.go:2026): output_dirs (post-build functions are not in the language) *)
+Definition could_modify (t : target) : bool :=
+  match t_kind t with Genrule OutDir => true | _ => false end.
+
+(* BuildTarget.AddOutput / insert (build_target.go:1908): sorted insert, nothing when already present *)
+Fixpoint add_out (x : str) (l : list str) : list str :=
+  match l with
+  | [] => [x]
+  | y :: r => match str_cmp x y with Eq => l | Lt => x :: l | Gt => y :: add_out x r end
+  end.
+Definition add_outs (xs : list str) (l : list str) : list str := fold_left (fun acc x => add_out x acc) xs l.
+
+(* needsBuilding(postBuild = true): the target now has the outputs `outs` (declared + those of the metadata);
+   every one of them must carry the same record, whose POST-build rule hash - taken over these outputs -
+   must be the current one *)
+Definition needs_build_post (r : repo) (st : store) (t : target) (outs : list str) : bool :=
+  negb (s_meta st (t_label t))
+  || match common_rec st (map (out_rel t) outs) with
+     | None => true
+     | Some rk =>
+         negb (str_eqb (rk_def rk) (t_defkey t) && list_eqb str_eqb (rk_outs rk) outs)
          || match source_key r st t with
             | None => true
             | Some k => negb (skey_eqb (snd rk) k)
@@ -286,8 +331,9 @@ Definition list_names (ins : list (str * node)) : str :=
                       | File _ _ => fst pn ++ nl
                       end) ins.
 
-Definition copy_dir (ins : list (str * node)) : node :=
-  Dir (fold_left (fun es pn => ins_entry (basename (fst pn)) (snd pn) es) ins []).
+Definition copy_entries (ins : list (str * node)) : list (str * node) :=
+  fold_left (fun es pn => ins_entry (basename (fst pn)) (snd pn) es) ins [].
+Definition copy_dir (ins : list (str * node)) : node := Dir (copy_entries ins).
 
 (* outs: $OUTS (sorted declared outputs); ins: $SRCS as (temporary path, tree) *)
 Definition act (k : kind) (outs : list str) (ins : list (str * node)) : option (list (str * node)) :=
@@ -306,6 +352,7 @@ Definition act (k : kind) (outs : list str) (ins : list (str * node)) : option (
   | Genrule ListNames => match outs with [o] => Some [(o, File false (list_names ins))] | _ => None end
   | Genrule (Const a) => Some (map (fun o => (o, File false (a ++ nl))) outs)
   | Genrule Fail => None
+  | Genrule OutDir => None                        (* see od_cmd: its result is more than the declared outs *)
   | TextFile c => match outs with [o] => Some [(o, File false c)] | _ => None end
   | Filegroup => None
   end.
@@ -391,7 +438,7 @@ Definition build_rule (cache_on : bool) (r : repo) (rn : run) (t : target) : run
     match source_key r st t with
     | None => fail_run rn t (remove_outputs t st)                (* a source does not exist *)
     | Some sk =>
-        let rk := (t_defkey t, sk) in
+        let rk := ((t_defkey t, []), sk) in
         match (if cache_on then s_cache st (t_label t) rk else None) with
         | Some cached =>                                         (* retrieveArtifacts: "Cached" *)
             mkRun (set_meta (fold_left (restore_output rk t) cached st) (t_label t)) (rn_log rn) (rn_failed rn)
@@ -399,11 +446,80 @@ Definition build_rule (cache_on : bool) (r : repo) (rn : run) (t : target) : run
         end
     end.
 
+(* ------------------------------------------------------------------------------------------ *)
+(* targets with output_dirs: the two-phase check and the build that discovers outputs *)
+
+Definition remove_outs (t : target) (outs : list str) (st : store) : store :=
+  fold_left (fun s rel => set_out s rel None) (map (out_rel t) outs) st.
+
+(* the e2e command `outdir` with $OUTS = outs: (what it leaves in _o, what it writes besides).
+   cp (no -r) refuses a directory; with no $OUTS the redirection has no target. *)
+Definition fixed : str := [102; 105; 120; 101; 100; 10]%N.     (* "fixed\n" *)
+Definition od_cmd (outs : list str) (ins : list (str * node)) : option (list (str * node) * list (str * node)) :=
+  match outs, all_files ins with
+  | o :: _, Some _ => Some (copy_entries ins, [(o, File false fixed)])
+  | _, _ => None
+  end.
+
+(* moveOutputs (build_step.go:698): every output of the target must be in the temporary directory *)
+Fixpoint collect (tmp : list (str * node)) (outs : list str) : option (list (str * node)) :=
+  match outs with
+  | [] => Some []
+  | o :: rest => match alookup o tmp, collect tmp rest with
+                 | Some n, Some l => Some ((o, n) :: l)
+                 | _, _ => None
+                 end
+  end.
+
+(* build_step.go:317-419 for such a target whose outputs are `outs0` when the command starts:
+   addOutputDirectoriesToBuildOutput moves the entries of _o to the root of the temporary directory (over
+   what is there) and adds them to the target, StoreTargetMetadata records their names, moveOutputs wants
+   every output - also those that came from the OLD metadata - and the record carries the post-build rule
+   hash over all of them.  On error Build() removes the outputs the target has at that moment. *)
+Definition run_od (r : repo) (rn : run) (t : target) (outs0 : list str) (sk : skey) : run :=
+  let st := rn_st rn in
+  match gather (read r st) (all_paths r t) with
+  | None => fail_run rn t (remove_outs t outs0 st)
+  | Some ins =>
+      match od_cmd outs0 (tmp_ins ins) with
+      | None => mkRun (remove_outs t outs0 st) (t_label t :: rn_log rn) (t_label t :: rn_failed rn)
+      | Some (found, news) =>
+          let outs1 := add_outs (map fst found) outs0 in
+          let st0 := set_meta_dyn st (t_label t) (map fst found) in
+          match collect (found ++ news) outs1 with
+          | None => mkRun (remove_outs t outs1 st0) (t_label t :: rn_log rn) (t_label t :: rn_failed rn)
+          | Some moved =>
+              mkRun (fold_left (move_output ((t_defkey t, outs1), sk) t) moved st0) (t_label t :: rn_log rn) (rn_failed rn)
+          end
+      end
+  end.
+
+Definition rebuild_od (r : repo) (rn : run) (t : target) (outs0 : list str) : run :=
+  match source_key r (rn_st rn) t with
+  | None => fail_run rn t (remove_outs t outs0 (rn_st rn))
+  | Some sk => run_od r rn t outs0 sk
+  end.
+
+(* the outputs the target has after addOutDirOutsFromMetadata (build_step.go:238) *)
+Definition meta_outs (st : store) (t : target) : list str := add_outs (s_dyn st (t_label t)) (outputs t).
+
+(* pre-build check passed, post-build check did not: "Rebuilding %s after post-build function", with the
+   outputs of the old metadata still on the target *)
+Definition stale_flow (r : repo) (st : store) (t : target) : bool :=
+  could_modify t && negb (needs_build r st t) && needs_build_post r st t (meta_outs st t).
+
+Definition build_rule_od (r : repo) (rn : run) (t : target) : run :=
+  let st := rn_st rn in
+  if needs_build r st t then rebuild_od r rn t (outputs t)
+  else if needs_build_post r st t (meta_outs st t) then rebuild_od r rn t (meta_outs st t)
+  else rn.                                                         (* "Unchanged" *)
+
 Definition is_filegroup (t : target) : bool := match t_kind t with Filegroup => true | _ => false end.
 
 Definition build_one (cache_on : bool) (r : repo) (rn : run) (t : target) : run :=
   if blocked r rn t then fail_run rn t (rn_st rn)
   else if is_filegroup t then build_filegroup r t rn
+  else if could_modify t then build_rule_od r rn t
   else build_rule cache_on r rn t.
 
 (* ------------------------------------------------------------------------------------------ *)
@@ -423,6 +539,15 @@ Definition build_all (cache_on : bool) (r : repo) (st : store) : run :=
 Definition plz_build (cache_on : bool) (r : repo) (req : list str) (st : store) : run :=
   build_all cache_on (restrict r req) st.
 
+(* did some target of the run go through stale_flow?  (hypothesis of the theorems: executable) *)
+Fixpoint stale_in (cache_on : bool) (r : repo) (ts : list target) (rn : run) : bool :=
+  match ts with
+  | [] => false
+  | t :: rest => (negb (blocked r rn t) && stale_flow r (rn_st rn) t) || stale_in cache_on r rest (build_one cache_on r rn t)
+  end.
+Definition plz_stale (cache_on : bool) (r : repo) (req : list str) (st : store) : bool :=
+  stale_in cache_on (restrict r req) (r_targets (restrict r req)) (mkRun st [] []).
+
 (* observables *)
 Definition run_ok (rn : run) : bool := match rn_failed rn with [] => true | _ => false end.
 Definition is_genrule (t : target) : bool := match t_kind t with Genrule _ => true | _ => false end.
@@ -432,6 +557,9 @@ Definition logged (r : repo) (rn : run) : list str :=
 Definition out_of (st : store) (t : target) (o : str) : option node := option_map e_node (s_outs st (out_rel t o)).
 Definition outs_of (st : store) (t : target) : list (str * option node) :=
   map (fun o => (o, out_of st t o)) (outputs t).
+(* all outputs, the discovered ones included: what the metadata names *)
+Definition all_outs_of (st : store) (t : target) : list (str * option node) :=
+  map (fun o => (o, out_of st t o)) (meta_outs st t).
 
 (* ------------------------------------------------------------------------------------------ *)
 (* well-formed repositories (hypotheses of the theorems; executable) *)
@@ -449,12 +577,24 @@ Fixpoint topo (seen : list str) (ts : list target) : bool :=
 Definition has_outs (t : target) : bool :=
   is_filegroup t || match t_outs t with [] => false | _ => true end.
 
+(* the names an output_dirs target finds in _o: the base names of its sources - a function of the paths *)
+Definition found_names (r : repo) (t : target) : list str :=
+  fold_left (fun acc p => add_out (basename (snd p)) acc) (all_paths r t) [].
+(* every path the build of t may write: declared outputs, and what it may discover *)
+Definition claimed (r : repo) (t : target) : list str :=
+  out_rels t ++ (if could_modify t then map (out_rel t) (found_names r t) else []).
+(* nobody reads the outputs of an output_dirs target (the reader would see the discovered ones too) *)
+Definition no_od_deps (r : repo) (t : target) : bool :=
+  forallb (fun l => match find_target (r_targets r) l with Some d => negb (could_modify d) | None => true end)
+          (label_srcs (t_srcs t)).
+
 (* unique labels, dependencies first, no two targets write the same path, rules declare an output *)
 Definition wf_repo (r : repo) : bool :=
   nodup_str (map t_label (r_targets r))
   && topo [] (r_targets r)
-  && nodup_str (flat_map out_rels (r_targets r))
-  && forallb has_outs (r_targets r).
+  && nodup_str (flat_map (claimed r) (r_targets r))
+  && forallb has_outs (r_targets r)
+  && forallb (no_od_deps r) (r_targets r).
 
 (* no two sources of a target land on the same temporary path (so IterSources drops nothing) *)
 Definition distinct_srcs (r : repo) : bool :=
@@ -471,13 +611,18 @@ Record step := mkStep {
   sp_req : list str;
   ob_ok : bool;                                        (* exit status 0 *)
   ob_exec : list str;                                  (* action log, any order *)
-  ob_outs : list (str * list (str * option node))      (* label -> out -> tree in plz-out *)
+  ob_outs : list (str * list (str * option node));     (* label -> out -> tree in plz-out *)
+  ob_dyn : list (str * option (list str))              (* label -> OutputDirOuts of its metadata file, if any *)
 }.
 
 Definition do_step (st : store) (sp : step) : run :=
   plz_build (sp_cache sp) (sp_repo sp) (sp_req sp) (if sp_wipe sp then wipe st else st).
 
-Inductive case := History (steps : list step).
+(* History: a whole history with what plz did.  RuleKeys: for the targets of a history, the model's rule key
+   and the pre-build rule hash `plz hash --detailed` printed for it. *)
+Inductive case :=
+| History (steps : list step)
+| RuleKeys (obs : list (str * str)).
 
 Definition subset (a b : list str) : bool := forallb (fun x => mem x b) a.
 Definition onode_eqb := option_eqb node_eqb.
@@ -487,9 +632,16 @@ Definition check_outs (r : repo) (st : store) (obs : list (str * list (str * opt
              match find_target (r_targets r) (fst lo) with
              | None => false
              | Some t => forallb (fun on => onode_eqb (out_of st t (fst on)) (snd on)) (snd lo)
-                         && Nat.eqb (length (snd lo)) (length (outputs t))
+                         && (could_modify t || Nat.eqb (length (snd lo)) (length (outputs t)))
                          && subset (outputs t) (map fst (snd lo))
+                         && subset (meta_outs st t) (map fst (snd lo))
              end) obs.
+
+Definition check_dyn (st : store) (obs : list (str * option (list str))) : bool :=
+  forallb (fun ld => match snd ld with
+                     | Some d => s_meta st (fst ld) && list_eqb str_eqb (s_dyn st (fst ld)) d
+                     | None => negb (s_meta st (fst ld))
+                     end) obs.
 
 Definition check_step (st : store) (sp : step) : bool * store :=
   let rn := do_step st sp in
@@ -497,7 +649,8 @@ Definition check_step (st : store) (sp : step) : bool * store :=
   (Bool.eqb (run_ok rn) (ob_ok sp)
    && subset ex (ob_exec sp) && subset (ob_exec sp) ex
    && Nat.eqb (length ex) (length (ob_exec sp))
-   && (negb (ob_ok sp) || check_outs (sp_repo sp) (rn_st rn) (ob_outs sp)),
+   && (negb (ob_ok sp) || check_outs (sp_repo sp) (rn_st rn) (ob_outs sp))
+   && check_dyn (rn_st rn) (ob_dyn sp),
    rn_st rn).
 
 Fixpoint check_steps (st : store) (l : list step) : bool :=
@@ -506,4 +659,12 @@ Fixpoint check_steps (st : store) (l : list step) : bool :=
   | sp :: r => let (ok, st') := check_step st sp in ok && check_steps st' r
   end.
 
-Definition check (c : case) : bool := match c with History l => check_steps empty_store l end.
+(* the rule key and the real rule hash induce the same partition of the observed targets *)
+Definition check_keys (obs : list (str * str)) : bool :=
+  forallb (fun a => forallb (fun b => Bool.eqb (str_eqb (fst a) (fst b)) (str_eqb (snd a) (snd b))) obs) obs.
+
+Definition check (c : case) : bool :=
+  match c with
+  | History l => check_steps empty_store l
+  | RuleKeys obs => check_keys obs
+  end.
